@@ -69,7 +69,10 @@ Engines(g, dec) ==
        { [b EXCEPT !.blocks[1].enabled = f, !.blocks[1].desc = w, !.name = nm, !.desc = w2] : f \in BOOLEAN, w \in Words, nm \in {"", "e"}, w2 \in {<<>>, <<"an", "engine">>} }
   ELSE IF g = "rules" THEN
        { [b EXCEPT !.blocks[1].rules = rs] : rs \in { <<>> } \cup { <<[BaseRule EXCEPT !.w = w]>> : w \in Heights(dec) \cup {ZeroN} }
-                                                     \cup { <<[BaseRule EXCEPT !.w = w], [toks |-> <<"if", "a", "is", "not", "t", "or", "a", "is", "very", "t", "then", "o", "is", "u">>, w |-> OneN]>> : w \in Heights(dec) } }
+                                                     \cup { <<[BaseRule EXCEPT !.w = w], [toks |-> <<"if", "a", "is", "not", "t", "or", "a", "is", "very", "t", "then", "o", "is", "u">>, w |-> OneN]>> : w \in Heights(dec) }
+                                                     \* parentheses that override the precedence of `and` over `or`, and redundant ones
+                                                     \cup { <<[toks |-> <<"if", "(", "a", "is", "t", "or", "a", "is", "not", "t", ")", "and", "a", "is", "very", "t", "then", "o", "is", "u">>, w |-> w]>> : w \in {OneN, Num(FALSE, 0, Half(dec))} }
+                                                     \cup { <<[toks |-> <<"if", "a", "is", "t", "and", "(", "a", "is", "not", "t", "or", "(", "a", "is", "very", "t", ")", ")", "then", "o", "is", "u">>, w |-> OneN], BaseRule>> } }
   ELSE \* "shape": no variables, no blocks, several of each
        { [b EXCEPT !.inputs = ins, !.outputs = outs, !.blocks = bs] :
            ins \in { <<>>, <<BaseIn(dec), [BaseIn(dec) EXCEPT !.name = "b", !.terms = <<>>]>> },
